@@ -123,6 +123,17 @@ func conformanceOps() []storeOp {
 			n.Status.State = "ignored?"
 			return errClass(a.Patch(ctx, n, client.MergeFrom(e)))
 		}},
+		{"ersStatusPatch", func(c client.Client, a *w.API) string {
+			r := &v1.ExtendedDaemonSetReplicaSet{}
+			if e := a.Get(ctx, rk, r); e != nil {
+				return errClass(e)
+			}
+			n := r.DeepCopy()
+			n.Status.Desired = r.Status.Desired + 1
+			n.Status.Status = "patched"
+			n.Labels = map[string]string{"ignored": "1"}
+			return errClass(a.Status().Patch(ctx, n, client.MergeFrom(r)))
+		}},
 		{"podPatch", func(c client.Client, a *w.API) string {
 			p := &corev1.Pod{}
 			if e := a.Get(ctx, pk, p); e != nil {
